@@ -177,6 +177,13 @@ Theorem C12_sort_spec_all_types :
              filter (eqv_of lt z) (collect d') = filter (eqv_of lt z) (collect d)).
 Proof. exact sort_spec_typed_all. Qed.
 
+(* orderBy with well-typed keys over typed rows never raises *)
+Theorem C12_sort_total : forall split, split_law split -> forall G ks d,
+  cols d = map fst G -> Forall (fun r => row_ok G r = true) (collect d) ->
+  Forall (fun k => exists t, wt false G (fst k) t = true) ks ->
+  exists d', sort_df split ks d = Some d'.
+Proof. exact sort_typed_total. Qed.
+
 (* what one key's order is: the regenerated sort_order strings and membership lists give every SortOrder
    wrapper its SQL direction and null placement ... *)
 Theorem C12_sort_direction_table : forall d,
@@ -194,6 +201,24 @@ Theorem C12_sort_value_order : forall cs e d a b,
   row_lt cs (e, d) a b =
   if sql_ascending d then val_lt (keyv cs e a) (keyv cs e b) else val_lt (keyv cs e b) (keyv cs e a).
 Proof. exact value_order. Qed.
+
+(* ====================================================================== typed frames stay typed,
+   so that the statements above apply to every step of a chain *)
+Theorem C12_select_typed : forall G es ts ns d d',
+  cols d = map fst G -> Forall (fun r => row_ok G r = true) (collect d) ->
+  Forall2 (fun e t => wt false G e t = true) es ts -> map_opt out_name es = Some ns ->
+  select es d = Some d' ->
+  cols d' = map fst (combine ns ts) /\ Forall (fun r => row_ok (combine ns ts) r = true) (collect d').
+Proof. exact select_typed. Qed.
+
+Theorem C12_rows_preserved : forall split, split_law split -> forall (P : row -> Prop) d,
+  Forall P (collect d) ->
+  (forall c d', filter_df c d = Some d' -> Forall P (collect d')) /\
+  (forall ks d', sort_df split ks d = Some d' -> Forall P (collect d')) /\
+  (forall n, Forall P (collect (limit split n d))) /\
+  Forall P (collect (distinct split d)) /\
+  (forall ns d', dropDuplicates split ns d = Some d' -> Forall P (collect d')).
+Proof. exact rows_preserved. Qed.
 
 (* ====================================================================== partition independence *)
 
